@@ -79,12 +79,23 @@ def seed():
 _LOGGERS = {}
 
 
+class _FormatAndDrop(logging.Handler):
+    def emit(self, record):
+        record.getMessage()
+
+    def handleError(self, record):
+        raise  # pylint: disable=misplaced-bare-raise
+
+
 def make_logger(debug=False):
     """A real logger that prints nothing; level ERROR (production default) or DEBUG."""
     key = "verif.excluderegion.%s" % ("debug" if debug else "error")
     if key not in _LOGGERS:
         lg = logging.getLogger(key)
-        lg.handlers = [logging.NullHandler()]
+        # the debug logger really formats its records (as the plugin's log file handler does) and throws the text away; an
+        # exception raised while formatting is re-raised (logging.raiseExceptions only prints it), so that log statements
+        # which mutate or break what they print do not go unnoticed
+        lg.handlers = [_FormatAndDrop()] if debug else [logging.NullHandler()]
         lg.propagate = False
         lg.setLevel(logging.DEBUG if debug else logging.ERROR)
         _LOGGERS[key] = lg
